@@ -135,6 +135,30 @@ def run(ctx):
                         ctx.counterexample('Path.glob(%r, %s, exclude=%r) = %r, glob gives %r' % (pats, corr.flag_names(fvn), exarg, pg[:6], want[:6]),
                                            {'patterns': pats, 'flags': corr.flag_names(fvn), 'exclude': repr(exarg), 'tree': nspec})
     ctx.counted('NEGATE with exclude= (incl. empty)', n2, n2 // 2, [{'patterns': ['*', '!a'], 'exclude': []}])
+    nm = globcommon.mixed_abs_rel(ctx, rng, 3 if ctx.quick else 12)
+    ctx.counted('lists mixing absolute and relative patterns', nm, nm // 2, [{'patterns': ['<root>/other/*', 'sub/*']}])
+
+    # ---- NEGATEALL: only exclusions => everything (`**` read as GLOBSTAR whatever the flags say) minus the exclusions ------
+    n3 = 0
+    dspec = [('a.txt', 'f', None), ('b.md', 'f', None), ('sub', 'd', None), ('sub/c.txt', 'f', None), ('sub/d.md', 'f', None), ('sub/deep', 'd', None),
+             ('sub/deep/e.md', 'f', None), ('sub/deep/f.txt', 'f', None), ('.h', 'f', None)]
+    with trees.Tree(dspec) as TD:
+        for pats in (['!*.txt'], ['!*.txt', '!sub/*.md'], ['!*.txt|!sub/*.md'], ['!sub/'], ['!**/*.md'], ['!a.txt', '!b.md'], ['!zzz']):
+            for extra in (0, Gm.GLOBSTAR, Gm.NODIR, Gm.SPLIT, Gm.DOTGLOB, Gm.MARK, Gm.SPLIT | Gm.NODIR):
+                n3 += 1
+                fvn = Gm.NEGATE | Gm.NEGATEALL | extra
+                excl3 = [q[1:] for p in pats for q in (p.split('|') if extra & Gm.SPLIT else [p])]
+                base = Gm.glob('**', flags=Gm.GLOBSTAR | (extra & (Gm.NODIR | Gm.DOTGLOB | Gm.MARK)), root_dir=TD.root)
+
+                def gone(path):
+                    p2 = path if (path.endswith('/') or not os.path.isdir(os.path.join(TD.root, path))) else path + '/'
+                    return any(Gm.globmatch(p2, e, flags=(extra & Gm.GLOBSTAR) | Gm.DOTGLOB) for e in excl3)
+                want = sorted(x for x in base if not gone(x))
+                got = sorted(Gm.glob(pats, flags=fvn, root_dir=TD.root))
+                if got != want:
+                    ctx.counterexample('glob(%r, %s) = %r; NEGATEALL means everything (`**` as GLOBSTAR) minus the exclusions: %r' % (
+                        pats, corr.flag_names(fvn), got[:8], want[:8]), {'patterns': pats, 'flags': corr.flag_names(fvn), 'tree': dspec})
+    ctx.counted('NEGATEALL with exclusions only', n3, n3, [{'patterns': ['!*.txt'], 'flags': 'NEGATE|NEGATEALL'}])
     return ctx.finish(RULE)
 
 
